@@ -2,9 +2,13 @@
     Proved here: the time-stamp conversion (seconds with 0..9 fractional digits
     -> integer nanoseconds) is exact for numerals of any length; cell values
     go through the same text->value conversion as VCD values (C09
-    [to_value_binary]).  The table walk (column order, position of the time
-    column) is tied to the code by the correspondence check only — see
-    MANIFEST level_note (partial). *)
+    [to_value_binary]); the header walk renames every non-time column in place and
+    lists the normalised names in order; the table walk puts the converted time
+    cells, in row order, into the timestamps and each cell into the column of
+    its header, in row order, wherever the time column stands.
+    PARTIAL: splitting the text into lines and cells (strip, split on newline and
+    comma) and the name normalisation regexes are tied to the code by the
+    correspondence check, not by a theorem. *)
 From WalModel Require Import Csv.
 From WalModel.proofs Require Import ArithProofs CsvProofs.
 Local Open Scope Z_scope.
@@ -32,3 +36,29 @@ Example ns_examples :
   csv_time "0.000001" = Some 1000 /\ csv_time "12" = Some 12000000000 /\ csv_time "3." = Some 3000000000 /\
   csv_time "1.123456789" = Some 1123456789 /\ csv_time "1.1234567891" = Some 11234567891 /\ csv_time "x" = None.
 Proof. vm_compute. repeat split; reflexivity. Qed.
+
+(** the header walk ([ok_from]: each non-time header differs from the normalised names to its left) *)
+Theorem header_walk : forall header, ok_from [] header ->
+  csv_names (filter nontime header) header [] =
+  Some (map ren header, map norm_csv_name (filter nontime header)).
+Proof. exact csv_header_walk. Qed.
+Print Assumptions header_walk.
+
+(** the table walk: [p] = position of the time column, [raw] = the signal names *)
+Theorem table_walk : forall p header raw rows,
+  (forall row, In row rows -> List.length row = List.length header /\
+                              exists cell t, nth_error row p = Some cell /\ csv_time cell = Some t) ->
+  (forall k h, nth_error header k = Some h -> k <> p -> In h raw) ->
+  exists data times,
+    csv_rows rows header p (empty_cols raw) [] = Some (data, times) /\
+    map (fun row => match nth_error row p with Some cell => csv_time cell | None => None end) rows = map Some times /\
+    forall k h, nth_error header k = Some h -> k <> p ->
+      (forall j h', nth_error header j = Some h' -> j <> p -> j <> k -> h' <> h) ->
+      alookup h data = Some (flat_map (fun row => match nth_error row k with Some c => [c] | None => [] end) rows).
+Proof. exact csv_table_walk. Qed.
+Print Assumptions table_walk.
+
+Example table_example :
+  csv_rows [["1";"0.5";"x"]; ["0";"1.5";"1"]] ["a"; "Time [s]"; "b"] 1 (empty_cols ["a"; "b"]) [] =
+  Some ([("a", ["1"; "0"]); ("b", ["x"; "1"])], [500000000; 1500000000]).
+Proof. vm_compute. reflexivity. Qed.
